@@ -1,9 +1,11 @@
 ----------------------------- MODULE MC_Duration -----------------------------
 EXTENDS DurationMachine, MC_Duration_sets, TLC, Json
 NoCands == {}
-MCRoundOpts == {o \in [lg : {"day", "hour", "minute", "second", "nanosecond"}, sm : {"day", "hour", "minute", "second", "millisecond", "nanosecond"}, inc : {1, 2, 5, 30}, mode : {"halfExpand", "ceil", "floor", "trunc", "halfEven"}] :
+MCRoundOpts == {o \in [lg : {"day", "hour", "minute", "second", "nanosecond"}, sm : {"day", "hour", "minute", "second", "millisecond", "nanosecond"}, inc : {1, 2, 3, 5, 8, 30}, mode : {"halfExpand", "ceil", "floor", "trunc", "halfEven"}] :
                   /\ UnitLe(o.sm, o.lg)
-                  /\ (o.sm = "hour" => o.inc \in {1, 2}) /\ (o.sm = "day" => o.inc \in {1, 2, 5})
+                  /\ (o.sm = "hour" => o.inc \in {1, 2, 3, 8}) /\ (o.sm = "day" => o.inc \in {1, 2, 5})
+                  \* (8 h: three multiples a day - the parity of a multiple differs between the day and the total)
+                  /\ (o.inc \in {3, 8} => o.sm = "hour")
                   /\ (o.sm = "millisecond" => o.inc \in {1, 2, 5}) /\ (o.sm = "nanosecond" => o.inc \in {1, 2, 5})}
 Cls == CASE last.op = "new" -> (IF SignUniform(last.d) THEN "uniform" ELSE "mixed") \o (IF last.out.kind = "ok" THEN "/valid" ELSE "/invalid")
          [] last.op = "fromPartial" -> (IF DOMAIN last.p = {} THEN "empty" ELSE IF DOMAIN last.p = DurKeySet THEN "full" ELSE "some") \o "/" \o last.out.kind
